@@ -18,8 +18,17 @@ def enc(v):
             return {"__objarr__": [enc(x) for x in v.reshape(-1).tolist()], "shape": list(v.shape)}
         c = np.ascontiguousarray(v)
         order = "F" if (v.flags.f_contiguous and not v.flags.c_contiguous) else "C"
-        return {"__nd__": v.dtype.str, "shape": list(v.shape), "order": order,
-                "b64": base64.b64encode(c.tobytes()).decode("ascii")}
+        out = {"__nd__": v.dtype.str, "shape": list(v.shape), "order": order,
+               "b64": base64.b64encode(c.tobytes()).decode("ascii")}
+        if not v.flags.writeable:
+            out["ro"] = True
+        if v.ndim >= 1 and v.size > 1 and all(st == 0 for st in v.strides):
+            out["view"] = "bcast0"          # a fully broadcast (zero-stride) view of one element
+        elif v.ndim >= 3 and not v.flags.c_contiguous and not v.flags.f_contiguous and v.size > 0:
+            perm = sorted(range(v.ndim), key=lambda i: -abs(v.strides[i]))
+            if v.transpose(perm).flags.c_contiguous:
+                out["view"] = {"perm": perm}    # an axis-permuted view of a C-contiguous block (e.g. np.moveaxis)
+        return out
     if isinstance(v, np.str_):
         return {"__npstr__": str(v)}
     if isinstance(v, np.bytes_):
@@ -50,6 +59,17 @@ def dec(j):
             a = a.reshape(j["shape"]).copy()
             if j.get("order") == "F":
                 a = np.asfortranarray(a)
+            view = j.get("view")
+            if view == "bcast0":
+                a = np.broadcast_to(a.reshape(-1)[:1].reshape([1] * a.ndim), a.shape)
+                if not j.get("ro"):
+                    pass        # broadcast views are read-only by construction
+            elif isinstance(view, dict):
+                perm = view["perm"]
+                inv = [perm.index(i) for i in range(len(perm))]
+                a = np.ascontiguousarray(a.transpose(perm)).transpose(inv)
+            if j.get("ro") and a.flags.writeable:
+                a.setflags(write=False)
             return a
         if "__objarr__" in j:
             a = np.empty(len(j["__objarr__"]), dtype=object)
@@ -134,6 +154,8 @@ def mat_ty(t):
     for k, v in t:
         if v is None:
             out[k] = None
+        elif isinstance(v, dict) and "nd" in v:
+            out[k] = np.array(v["nd"], dtype=v["dt"])       # a shape held in an array of a given (possibly narrow) dtype
         elif isinstance(v, dict):
             out[k] = tuple(v["seq"])
         else:
